@@ -3,6 +3,7 @@
   pyipmi/helper.py and pyipmi/__init__.py (C13; the chunk loop is shared with C11):
 
     * `chunkLoop`    = helper.get_sdr_chunk_helper(send_fn, req, reserve_fn, retry)
+    * `chunkRes`     = what `req.reservation_id` holds when that helper is left
     * `clearLoop`    = helper._clear_repository(reserve_fn, clear_fn, ctrl, retry, reservation)
     * `clearHelper`  = helper.clear_repository_helper(reserve_fn, clear_fn, retry, reservation)
     * `sendLoop`     = Ipmi.send_message(req, retry)   (as shipped / intended, see `SendVariant`)
@@ -112,6 +113,26 @@ def chunkLoop {σ ρ : Type} (K : Consts) (send : σ → Nat → σ × Outcome (
       else if cc = K.chunkRetry1 ∨ cc = K.chunkRetry2 then chunkLoop K send reserve r st1 res
       else (st1, .ccError cc)
     | (st1, e) => (st1, recast e)
+
+/-- `req.reservation_id` when get_sdr_chunk_helper is left - by `return rsp` or by an exception:
+the renewing branch writes the id `reserve_fn()` returned into the request object, the caller
+(`_get_sdr_chunk` / `_get_device_sdr_chunk`) still holds that object.  Same recursion as
+`chunkLoop`; whether the caller looks at the value is a matter of `SdrXfer.Variant.staleRes`. -/
+def chunkRes {σ ρ : Type} (K : Consts) (send : σ → Nat → σ × Outcome (Nat × ρ))
+    (reserve : σ → σ × Outcome Nat) : Nat → σ → Nat → Nat
+  | 0, _, res => res
+  | r + 1, st, res =>
+    if r = 0 then res else
+    match send st res with
+    | (st1, .ok (cc, _)) =>
+      if cc = K.ccOk then res
+      else if cc = K.chunkRenew then
+        match reserve st1 with
+        | (st2, .ok res') => chunkRes K send reserve r st2 res'
+        | (_, _) => res
+      else if cc = K.chunkRetry1 ∨ cc = K.chunkRetry2 then chunkRes K send reserve r st1 res
+      else res
+    | (_, _) => res
 
 /-! ### _clear_repository
 
